@@ -157,4 +157,7 @@ class RemapColumnsOp(BaseOp):
         missing = set(parameters.get('integer_sources', [])) - set(parameters['source_columns'])
         if missing:
             return [f"the integer_sources {str(missing)} are missing from source_columns."]
+        columns = parameters['source_columns'] + parameters['destination_columns']
+        if len(set(columns)) != len(columns):
+            return ["source_columns and destination_columns must not repeat or share a column name."]
         return []
